@@ -27,9 +27,9 @@ INVS = ["TypeOK", "Refinement", "StepExact", "Isolation", "ListingsExact", "Trai
 
 
 def consts(ntr=1, t1="stdp", t2="stdp", share="neuron", samehp=True, d14=False, am=(1, 3), drop=True, prune=True,
-           depth=6):
+           depth=6, uniques=(False,), variants=("std",), extras=False):
     return dict(NTr=ntr, TType1=t1, TType2=t2, Share=share, SameHp=samehp, D14=d14, AMNames=set(am),
-                WithDrop=drop, Prune=prune, MaxDepth=depth)
+                Uniques=set(uniques), Vars=set(variants), Extras=extras, WithDrop=drop, Prune=prune, MaxDepth=depth)
 
 
 def run_tlc(c, invariants, workers=2):
@@ -99,7 +99,7 @@ def _signature(sig, rep):
             sig["differs"] = "pool"
         elif [p["reg"] for p in ost.get("ph", [])] != [p["reg"] for p in est.get("ph", [])]:
             sig["differs"] = "registered"
-            if op.get("a") in ("del_cell", "del_monitor"):
+            if op.get("a") in ("del_cell", "del_monitor", "add_monitor"):
                 # a monitor still listed under a surviving cell lost its registration
                 sig["clause"] = "Isolation"
                 sig["shared_monitor_deregistered"] = True
@@ -173,7 +173,7 @@ class RedirectWatch:
 # ------------------------------------------------------------------ direction B
 def random_trace(rng, steps, cfg, am):
     ntr = len(cfg["ttype"])
-    init = {"cfg": cfg, "ltr": True, "clk": 0,
+    init = {"cfg": cfg, "ltr": [True, True], "clk": 0,
             "tr": [{"alive": True, "training": True, "cells": [False, False]} for _ in range(ntr)],
             "pool": [[[0] * 6 for _ in range(2)] for _ in range(ntr)], "ph": [],
             "redir": [[False, False] for _ in range(ntr)]}
@@ -186,23 +186,27 @@ def random_trace(rng, steps, cfg, am):
     for _ in range(steps):
         alive = [t + 1 for t, r in enumerate(st["tr"]) if r["alive"]]
         r = rng.random()
+        nl = 2 if cfg["share"] == "layers" else 1
         if (r < 0.28 or not alive) and nsteps < MAXOBS - 2:
-            op = {"a": "step"}
+            op = {"a": "step", "l": rng.randint(1, nl)}
             nsteps += 1
         elif r < 0.34 or not alive:
-            op = {"a": "ltrain", "b": rng.random() < 0.6}
+            op = {"a": "ltrain", "l": rng.randint(1, nl), "b": rng.random() < 0.6}
         else:
             t = rng.choice(alive)
             tt = cfg["ttype"][t - 1]
             names = [m for m in am if (m >= 5) == (tt == "mstdpet")]
             c = rng.randint(1, 2)
             x = rng.random()
-            if x < 0.22:
+            if x < 0.20:
                 op = {"a": "register_cell", "t": t, "c": c}
-            elif x < 0.32:
+            elif x < 0.22 and tt == "stdp":
+                op = {"a": "add_cell", "t": t, "c": c}
+            elif x < 0.30:
                 op = {"a": "del_cell", "t": t, "c": c}
-            elif x < 0.42 and names:
-                op = {"a": "add_monitor", "t": t, "c": c, "m": rng.choice(names)}
+            elif x < 0.44 and names:
+                op = {"a": "add_monitor", "t": t, "c": c, "m": rng.choice(names), "u": rng.random() < 0.4,
+                      "var": "alt" if rng.random() < 0.35 else "std"}
             elif x < 0.50 and names:
                 op = {"a": "del_monitor", "t": t, "c": c, "m": rng.choice(names)}
             elif x < 0.62:
@@ -213,8 +217,12 @@ def random_trace(rng, steps, cfg, am):
                 op = {"a": "clear", "t": t}
             elif x < 0.82 and ntr > 1:
                 op = {"a": "drop", "t": t}
+            elif x < 0.85:
+                op = {"a": "update", "t": t}
+            elif x < 0.90:
+                op = {"a": "list", "t": t, "what": "of", "c": c}
             else:
-                op = {"a": "list", "t": t, "what": rng.choice(["named", "monitors", "cells"])}
+                op = {"a": "list", "t": t, "what": rng.choice(["named", "monitors", "cells"]), "c": 1}
         ret = impl.apply(op)
         st = impl.project()
         evs.append({"op": op, "ret": ret, "st": st})
@@ -268,20 +276,25 @@ def validate_traces(chk: Check, traces, site, report=True, shards=6):
     return stats, rej
 
 
+def _recorded_now(e):
+    """A step event after which some trace / pass-through monitor holds this very step."""
+    return any(p["reg"] and p["rec"] and p["rec"][-1] == e["st"]["clk"] for p in e["st"]["ph"])
+
+
 def canary_trace(chk: Check, trace, clean=True):
     good = copy.deepcopy(trace)
     good["hdr"]["waive"] = []
     bad = copy.deepcopy(good)
     line = None
     for i, e in enumerate(bad["ev"]):
-        if e["op"]["a"] == "step" and e["st"]["ltr"] and any(p["reg"] and p["rec"] for p in e["st"]["ph"]):
-            # pretend the first registered monitor missed this step
-            p = next(p for p in e["st"]["ph"] if p["reg"] and p["rec"])
+        if e["op"]["a"] == "step" and _recorded_now(e):
+            # pretend the first monitor that recorded this step missed it
+            p = next(p for p in e["st"]["ph"] if p["reg"] and p["rec"] and p["rec"][-1] == e["st"]["clk"])
             p["rec"] = p["rec"][:-1]
             line = i + 1
             break
     if line is None:
-        bad["ev"][0]["st"]["ltr"] = not bad["ev"][0]["st"]["ltr"]
+        bad["ev"][0]["st"]["ltr"][0] = not bad["ev"][0]["st"]["ltr"][0]
         line = 1
     stats, rej = tracecheck.validate("LifecycleTrace", [good, bad], shards=1, max_waive_rounds=1)
     lines = {(r["trace"], r["line"]) for r in rej}
@@ -296,10 +309,10 @@ def canary_trace(chk: Check, trace, clean=True):
 
 def canary_replay(chk: Check, g, rng):
     def deviate(op, ret, st):
-        if op.get("a") == "step" and st["ltr"]:
+        if op.get("a") == "step" and st["ltr"][op["l"] - 1]:
             st = copy.deepcopy(st)
             for p in st["ph"]:
-                if p["reg"] and p["rec"]:
+                if p["reg"] and p["rec"] and p["rec"][-1] == st["clk"]:
                     p["rec"] = p["rec"][:-1]      # the observation of this step is lost
                     break
         return ret, st
@@ -319,12 +332,22 @@ def run(tier: str, seed: int) -> int:
                          "distinct when it is a distinct (abstract state, operation) pair executed on the real layer "
                          "and trainers, or a distinct recorded trace event with at least one monitor installed.")
     d1, d2 = (5, 4) if quick else (8, 6)
+    FT = (False, True)
     mc = [
         ("stdp-neuron-same-d%d" % d1, consts(1, depth=d1), INVS + ["NoRedirect"], None),
-        ("stdp-neuron-diffhp-d%d" % (d1 - 1), consts(1, samehp=False, depth=d1 - 1), INVS + ["NoRedirect"], None),
-        ("stdp-conn-same-d%d" % (d1 - 1), consts(1, share="conn", depth=d1 - 1), INVS + ["NoRedirect"], None),
-        ("stdp+stdp-d%d" % d2, consts(2, am=(1,), depth=d2), INVS + ["NoRedirect"], None),
-        ("mstdpet-d%d" % (d1 - 1), consts(1, t1="mstdpet", am=(5,), depth=d1 - 1), INVS + ["NoRedirect"], None),
+        # re-adds of an existing / deleted name with unique = True / False, same and different
+        # constructor + tags, on a cell that shares the monitor with the other cell; add_cell, update
+        ("stdp-neuron-readd-d%d" % (d1 - 1), consts(1, am=(1,), uniques=FT, variants=("std", "alt"), extras=True,
+                                                     depth=d1 - 1), INVS + ["NoRedirect"], None),
+        ("stdp-neuron-diffhp-d%d" % (d1 - 1), consts(1, samehp=False, uniques=FT, variants=("std", "alt"), am=(1,),
+                                                      depth=d1 - 1), INVS + ["NoRedirect"], None),
+        ("stdp-conn-readd-d%d" % (d1 - 1), consts(1, share="conn", am=(3, 4), uniques=FT, depth=d1 - 1),
+         INVS + ["NoRedirect"], None),
+        # one trainer, cells in two different layers with identical component names
+        ("stdp-layers-d%d" % (d1 - 1), consts(1, share="layers", am=(1,), uniques=FT, depth=d1 - 1),
+         INVS + ["NoRedirect"], None),
+        ("stdp+stdp-d%d" % d2, consts(2, am=(1,), uniques=FT, depth=d2), INVS + ["NoRedirect"], None),
+        ("mstdpet-d%d" % (d1 - 1), consts(1, t1="mstdpet", am=(5,), uniques=FT, depth=d1 - 1), INVS + ["NoRedirect"], None),
         ("mstdpet+stdp-pruned-d%d" % d2, consts(2, t1="mstdpet", am=(1, 5), depth=d2), INVS, None),
         # the code as found: deleting a cell / monitor deregisters objects shared with a surviving cell
         ("asfound-D14", consts(1, d14=True, depth=5), ["Isolation"], "Isolation"),
@@ -332,11 +355,15 @@ def run(tier: str, seed: int) -> int:
         ("mstdpet+stdp-nametable", consts(2, t1="mstdpet", am=(1,), prune=False, depth=4), ["NoRedirect"], None),
     ]
     gens = [
-        ("g-stdp-neuron", consts(1, depth=4 if quick else 6), 3500 if quick else 15000),
-        ("g-stdp-conn-diffhp", consts(1, share="conn", samehp=False, am=(3,), depth=4 if quick else 5),
-         2000 if quick else None),
-        ("g-stdp+stdp", consts(2, am=(1,), depth=3 if quick else 5), 3000 if quick else 18000),
-        ("g-mstdpet+stdp", consts(2, t1="mstdpet", am=(1, 5), depth=3 if quick else 5), 3000 if quick else 18000),
+        ("g-stdp-neuron-readd", consts(1, am=(1,), uniques=FT, variants=("std", "alt"), extras=True,
+                                       depth=4 if quick else 5), 4500 if quick else 18000),
+        ("g-stdp-conn-diffhp", consts(1, share="conn", samehp=False, am=(3, 4), uniques=FT, depth=3 if quick else 5),
+         2000 if quick else 10000),
+        ("g-stdp-layers", consts(1, share="layers", am=(1,), uniques=FT, depth=3 if quick else 5),
+         2000 if quick else 10000),
+        ("g-stdp+stdp", consts(2, am=(1,), uniques=FT, depth=3 if quick else 5), 2500 if quick else 15000),
+        ("g-mstdpet+stdp", consts(2, t1="mstdpet", am=(1, 5), uniques=FT, depth=3 if quick else 5),
+         2500 if quick else 15000),
     ]
     ex = ThreadPoolExecutor(max_workers=5)
     genf = [ex.submit(run_tlc, c, ["Emit"], 1) for _, c, _ in gens]     # first: the replays wait for them
@@ -356,6 +383,8 @@ def run(tier: str, seed: int) -> int:
         ({"ttype": ["stdp"], "share": "neuron", "samehp": True, "d14": False}, (1, 2, 3, 4)),
         ({"ttype": ["stdp"], "share": "conn", "samehp": True, "d14": False}, (1, 2, 3, 4)),
         ({"ttype": ["stdp"], "share": "neuron", "samehp": False, "d14": False}, (1, 3)),
+        ({"ttype": ["stdp"], "share": "layers", "samehp": True, "d14": False}, (1, 2, 3, 4)),
+        ({"ttype": ["mstdpet"], "share": "layers", "samehp": True, "d14": False}, (5, 6)),
         ({"ttype": ["stdp", "stdp"], "share": "neuron", "samehp": True, "d14": False}, (1, 2, 3, 4)),
         ({"ttype": ["mstdpet"], "share": "neuron", "samehp": True, "d14": False}, (5, 6)),
         ({"ttype": ["mstdpet", "stdp"], "share": "conn", "samehp": True, "d14": False}, (1, 3, 5)),
@@ -372,8 +401,7 @@ def run(tier: str, seed: int) -> int:
     ex.shutdown()
 
     # ---- canaries
-    withstep = [t for t in traces if any(e["op"]["a"] == "step" and e["st"]["ltr"] and
-                                         any(p["reg"] and p["rec"] for p in e["st"]["ph"]) for e in t["ev"])]
+    withstep = [t for t in traces if any(e["op"]["a"] == "step" and _recorded_now(e) for e in t["ev"])]
     accepted = [t for t in withstep if not t["hdr"]["waive"]]
     canary_trace(chk, (accepted or withstep)[0], clean=bool(accepted))
     canary_replay(chk, first, rng)
